@@ -23,7 +23,7 @@ NCPU = 16
 # per-property configuration: cases are per worker
 CONF = {
     "C20P": dict(level="fault_enumeration", workers=16, quick=dict(cases=700, size=60), thorough=dict(cases=20000, size=100)),
-    "C20": dict(also=dict(quick=[("C20P", 700)], thorough=[("C20P", 20000)]), level="fault_enumeration", workers=16, quick=dict(cases=500, size=50), thorough=dict(cases=12000, size=80)),
+    "C20": dict(enumerate=True, also=dict(quick=[("C20P", 700)], thorough=[("C20P", 20000)]), level="fault_enumeration", workers=16, quick=dict(cases=500, size=50), thorough=dict(cases=12000, size=80)),
     "C01": dict(level="exploration", workers=16, quick=dict(cases=220, size=60), thorough=dict(cases=4000, size=100)),
     "C02": dict(level="exploration", workers=16, quick=dict(cases=4000, size=60), thorough=dict(cases=60000, size=100)),
     "C03": dict(also=dict(quick=[("C18Q", 600), ("C04", 800)], thorough=[("C18Q", 10000), ("C04", 12000)]), level="exploration", workers=16, quick=dict(cases=4000, size=60), thorough=dict(cases=75000, size=100)),
@@ -166,6 +166,40 @@ def main():
             out_lines.append(f"WORKER-ERROR worker={w} rc={p.returncode} {e}")
             violations.append(dict(sig="worker-error", replay=f"{rdir}/w{w}.err", msg=f"worker {w} exited {p.returncode} without statistics"))
 
+    # 2a. exhaustive stage (where the driver defines a finite sub-space): every worker takes its stripe of the enumeration
+    enum_stats = None
+    if conf.get("enumerate"):
+        edir = f"{B}/run/{pid}-enum"
+        shutil.rmtree(edir, ignore_errors=True)
+        os.makedirs(edir, exist_ok=True)
+        env2 = dict(env, VERIF_TIER=tier, VERIF_SEED=str(seed))
+        eprocs = []
+        for w in range(workers):
+            cmd = [binp, "--enumerate", "--nworkers", str(workers), "--worker", str(w), "--seed", str(derive_seed(seed, 500 + w)), "--out", f"{edir}/w{w}.json"]
+            eprocs.append((w, subprocess.Popen(cmd, env=env2, stdout=subprocess.PIPE, stderr=open(f"{edir}/w{w}.err", "w"), text=True)))
+        enum_stats = dict(programs=0, faulty_runs=0, allocations_per_program_sum=0, complete=True)
+        for w, p in eprocs:
+            so, _ = p.communicate()
+            for ln in so.splitlines():
+                if ln.startswith(("FAIL", "UNSTABLE")):
+                    out_lines.append(ln)
+            try:
+                st = json.load(open(f"{edir}/w{w}.json"))
+                enum_stats["programs"] = max(enum_stats["programs"], st.get("enumerated", 0))
+                enum_stats["faulty_runs"] += st["counters"][3]
+                if w == 0:
+                    enum_stats["allocations_per_program_sum"] = st["counters"][1]
+                elif enum_stats["allocations_per_program_sum"] != st["counters"][1]:
+                    enum_stats["complete"] = False  # the stripes did not see the same allocation sequences: not claimed exhaustive
+                if not st.get("ok", True) or st.get("inconclusive", 0):
+                    enum_stats["complete"] = False
+                st["tags"] = {f"enum:{k}": v for k, v in st["tags"].items()}
+                stats.append(st)
+            except Exception as e:
+                out_lines.append(f"WORKER-ERROR worker={w} (enumerate) rc={p.returncode} {e}")
+                violations.append(dict(sig="worker-error", replay=f"{edir}/w{w}.err", msg=f"enumeration worker {w} exited {p.returncode} without statistics"))
+                enum_stats["complete"] = False
+
     # 2b. drivers of other properties whose generated domain also belongs to this property
     #     (e.g. the WebSocket hostile-peer sessions of C16 decide C11's size limits over ws://)
     for other, ocases in conf.get("also", {}).get(tier, []):
@@ -243,6 +277,14 @@ def main():
         workers=workers,
         fuzz=fuzz_stats,
     )
+    if enum_stats is not None:
+        # exhaustive over the stated finite sub-space only when every stripe ran to its end
+        enum_stats["exhaustive"] = bool(enum_stats["complete"] and enum_stats["faulty_runs"] >= enum_stats["allocations_per_program_sum"] > 0)
+        enum_stats["space"] = ("the 16 bare scenario templates of the API programs x transport (inproc, ipc, tcp) x call form (blocking, non-blocking, aio) x dial flags, "
+                               "under the fifo schedule; thorough tier: additionally 17 fixed single operations (option sets that resize queues, closes, pipe / endpoint closes, "
+                               "statistics, context open, cancel, large send, ...) inserted at every position of every template x transport. For each program EVERY allocation "
+                               "index 1..A (nng_init's own included) fails once; the indices are striped over the workers")
+        cov["enumeration"] = enum_stats
     weak = [k for k, v in tags.items() if evaluations and v * 100 < evaluations]
     if weak:
         cov["rare_classes_below_1pct"] = weak
